@@ -1,3 +1,4 @@
+import Tumfl.Props.Same
 import Tumfl.Props.Parse
 import Tumfl.Props.Print
 import Tumfl.Props.C08
@@ -16,6 +17,10 @@ import Tumfl.Props.C13
 #print axioms Tumfl.Props.C02_boundary
 #print axioms Tumfl.Props.C08_comment_wf
 #print axioms Tumfl.Props.C08_comment_text
+#print axioms Tumfl.Props.Same_program
+#print axioms Tumfl.Props.Same_tokens
+#print axioms Tumfl.Props.Same_normS_eq
+#print axioms Tumfl.Props.Same_normS_strength
 #print axioms Tumfl.Props.Parse_printable
 #print axioms Tumfl.Props.C10_parse_sound
 #print axioms Tumfl.Props.C03_parse_complete
